@@ -117,7 +117,22 @@ STMT_CORES.update({
     "blob_param_small": ("bp :: fn a: Sm do\n    pr(a.x)\nend\nbp(__ealt1(%s))" % BLOB_VALS, BLOB_DECLS, lambda S, I: spec_blob_pair(S, I, left=0)),
     "blob_return_declared": ("bf :: fn -> Sm do\n    ret __ealt1(%s)\nend" % BLOB_VALS, BLOB_DECLS, lambda S, I: spec_blob_pair(S, I, left=0)),
 })
-GENERIC_LITS = {"generic_binop_args": ["int", "str", "bool", "float"], "generic_binop_via_variables": ["int", "str", "bool"], "tuple_elementwise": ["tuple", "tuple_str", "int"]}
+# ---- constraints that sit on a tuple built from un-annotated parameters (the tuple is the inferred result) and a call whose value is not used
+def spec_gt(S, I):
+    num = lambda n: z3.Or(I(n, "int"), I(n, "float")); same = lambda a, b: z3.Or([z3.And(I(a, k), I(b, k)) for k in S[a][1]])
+    return z3.Not(z3.And(num("lit1"), num("lit2"), num("lit3"), same("lit1", "lit3"), same("lit2", "lit3")))
+def spec_gn(S, I): return z3.Not(z3.And(z3.Or(I("lit1", "int"), I("lit1", "float")), z3.Or(I("lit2", "int"), I("lit2", "float"))))
+GT = "gt :: fn x, y, k ->\n    (x, y) * (k, k)\nend\n"
+GN = "gn :: fn x, y ->\n    -(x, y)\nend\n"
+STMT_CORES.update({
+    "generic_tuple_result_unused_call": ("gt(__lit1, __lit2, __lit3)", GT, spec_gt),
+    "generic_tuple_result_in_tuple_literal": ("tt := (gt(__lit1, __lit2, __lit3), 2)", GT, spec_gt),
+    "generic_tuple_result_trailing_in_closure": ("cc :: fn do\n    gt(__lit1, __lit2, __lit3)\nend\ncc()", GT, spec_gt),
+    "generic_tuple_negation_unused_call": ("gn(__lit1, __lit2)", GN, spec_gn),
+    "generic_tuple_negation_stored": ("nn := gn(__lit1, __lit2)", GN, spec_gn),
+})
+GENERIC_LITS = {"generic_tuple_result_unused_call": ["int", "float", "str"], "generic_tuple_result_in_tuple_literal": ["int", "float", "str"], "generic_tuple_result_trailing_in_closure": ["int", "str"],
+                "generic_tuple_negation_unused_call": ["int", "float", "str", "bool"], "generic_tuple_negation_stored": ["int", "float", "str", "bool"], "generic_binop_args": ["int", "str", "bool", "float"], "generic_binop_via_variables": ["int", "str", "bool"], "tuple_elementwise": ["tuple", "tuple_str", "int"]}
 
 
 def spec_binop_nested(S, I):
